@@ -1090,10 +1090,16 @@ pub fn check_c06(sum: &mut Summary) {
             // the first two documents supplied as one input that repeats its root element (the structure's root is
             // then marked as repeated), followed by the other documents, an element-less input and one document again
             let mut g = base.clone();
-            let mut bytes = g.docs[0].bytes.clone();
-            bytes.extend_from_slice(b"\n");
-            bytes.extend_from_slice(&g.docs[1].bytes);
-            g.docs.splice(0..2, [DocInput::from_bytes(bytes)]);
+            let mut items: Vec<crate::dom::Item> = Vec::new();
+            for (i, d) in h.docs.iter().take(2).enumerate() {
+                if i > 0 {
+                    items.push(crate::dom::Item::Ws("\n".into()));
+                }
+                items.extend(d.prolog.iter().cloned());
+                items.push(crate::dom::Item::Elem(d.root.clone()));
+                items.extend(d.epilog.iter().cloned());
+            }
+            g.docs.splice(0..2, [DocInput::from_items(items)]);
             g.docs.push(elementless_doc(&mut r));
             let again = base.docs[r.below(base.docs.len())].clone();
             g.docs.push(again);
